@@ -18,9 +18,13 @@ import (
 	"github.com/fsnotify/fsnotify"
 	"github.com/inancgumus/screen"
 	"github.com/microsoft/yardl/tooling/internal/cpp"
+	cppcommon "github.com/microsoft/yardl/tooling/internal/cpp/common"
 	"github.com/microsoft/yardl/tooling/internal/iocommon"
 	"github.com/microsoft/yardl/tooling/internal/matlab"
+	matlabcommon "github.com/microsoft/yardl/tooling/internal/matlab/common"
 	"github.com/microsoft/yardl/tooling/internal/python"
+	pythoncommon "github.com/microsoft/yardl/tooling/internal/python/common"
+	"github.com/microsoft/yardl/tooling/internal/validation"
 	"github.com/microsoft/yardl/tooling/pkg/dsl"
 	"github.com/microsoft/yardl/tooling/pkg/packaging"
 	"github.com/spf13/cobra"
@@ -201,6 +205,9 @@ func generateImpl(configArgs map[string]string) (*packaging.PackageInfo, []strin
 	if err != nil {
 		return packageInfo, warnings, err
 	}
+	if err := validateNamespaceNames(env, packageInfo); err != nil {
+		return packageInfo, warnings, err
+	}
 	verifhook.Emit("Validated", "ok", true)
 	verifhook.Gate("before_write")
 
@@ -238,6 +245,29 @@ func generateImpl(configArgs map[string]string) (*packaging.PackageInfo, []strin
 
 	verifhook.Emit("GenEnd")
 	return packageInfo, warnings, err
+}
+
+// Checks, before anything is written, that every namespace can be expressed in each of the enabled target languages
+func validateNamespaceNames(env *dsl.Environment, packageInfo *packaging.PackageInfo) error {
+	errorSink := validation.ErrorSink{}
+	for _, ns := range env.Namespaces {
+		if packageInfo.Cpp != nil && !packageInfo.Cpp.Disabled {
+			if err := cppcommon.ValidateNamespaceName(ns.Name); err != nil {
+				errorSink.Add(validation.NewValidationError(err, packageInfo.FilePath))
+			}
+		}
+		if packageInfo.Python != nil && !packageInfo.Python.Disabled {
+			if err := pythoncommon.ValidateNamespaceName(ns.Name); err != nil {
+				errorSink.Add(validation.NewValidationError(err, packageInfo.FilePath))
+			}
+		}
+		if packageInfo.Matlab != nil && !packageInfo.Matlab.Disabled {
+			if err := matlabcommon.ValidateNamespaceName(ns.Name); err != nil {
+				errorSink.Add(validation.NewValidationError(err, packageInfo.FilePath))
+			}
+		}
+	}
+	return errorSink.AsError()
 }
 
 func outputJson(env *dsl.Environment, options *packaging.JsonCodegenOptions) error {
